@@ -3,6 +3,7 @@ package c06
 
 import (
 	"bytes"
+	"compress/gzip"
 	"encoding/base64"
 	"encoding/json"
 	"fmt"
@@ -543,6 +544,24 @@ func Check(c Case) ([]evid.Violation, info) {
 				}
 				if !single && (log.termErr == nil || log.termErr == io.EOF) && len(log.msgs) < len(c.Msgs) {
 					return fail("truncation", "truncation-reported-as-eof", "gzip body cut at %d of %d: handler saw %d of %d messages then %v", len(body), len(full), len(log.msgs), len(c.Msgs), log.termErr)
+				}
+				// every message whose bytes the cut stream still inflates to must be delivered: bytes that
+				// arrive together with the decompressor's error are data like any other
+				if !single && c.Transport != "grpc" && !strings.HasPrefix(c.Transport, "grpcweb") {
+					inflated := 0
+					if zr, err := gzip.NewReader(bytes.NewReader(body)); err == nil {
+						b, _ := io.ReadAll(zr)
+						inflated = len(b)
+					}
+					deliverable := 0
+					for _, b := range bounds {
+						if b <= inflated {
+							deliverable++
+						}
+					}
+					if len(log.msgs) < deliverable {
+						return fail("sequence", "message-lost", "gzip body cut at %d of %d still inflates to %d bytes = %d complete messages, but the handler received %d before %v", len(body), len(full), inflated, deliverable, len(log.msgs), log.termErr)
+					}
 				}
 			} else {
 				n := len(log.msgs)
